@@ -12,9 +12,10 @@ RE_MENU = [
 SYMS = ['{', '}', ',', ';', '->', ':', '(', ')', '=', '@', '%%']
 
 class G:
-    def __init__(self, rnd, f1=0.0):
+    def __init__(self, rnd, f1=0.0, pskip=0.2, pws=0.1, pcomment=0.3):
         self.r = rnd
         self.f1 = f1
+        self.pskip, self.pws, self.pcomment = pskip, pws, pcomment
         self.kw = 0
         self.used_features = set()
 
@@ -43,13 +44,13 @@ class G:
         for rl in rules[1:]:
             if not self.f1 and not isinstance(rl.body, (Seq, Choice, Lit, Re)):
                 continue
-            if r.random() < 0.15:
+            if r.random() < self.pskip:
                 rl.skipws = r.choice([True, False])
                 self.used_features.add('skipws-mod')
-            elif r.random() < 0.08:
+            elif r.random() < self.pws:
                 rl.ws = r.choice([' ', ' \t', '\n ', ' \t\n'])
                 self.used_features.add('ws-mod')
-        if r.random() < 0.3:
+        if r.random() < self.pcomment:
             rules.append(Rule('Comment', Re(r'//.*$') if r.random() < 0.7 else Re(r'/\*(.|\n)*?\*/')))
             self.used_features.add('comment')
         return Grammar(rules)
@@ -222,6 +223,9 @@ class Deriver:
         return 0
 
     def gap(self, ctx):
+        if getattr(self, 'hostile', False) and self.r.random() < 0.06:
+            # whitespace chosen without regard to the active mode (tests that modifiers are really in force)
+            return self.r.choice([' ', '\n', '\t', '  ', ' \n', ''])
         if not ctx.skipws:
             return ''
         w = ctx.eff_ws()
